@@ -89,6 +89,16 @@ pub(crate) fn format(src: &str, path: &Path) -> String {
         result.push('\n');
     }
 
+    // The spacing phases can lengthen a signature line past
+    // `MAX_SIGNATURE_LINE_LEN` (e.g. `a:Int,b:Int` becomes `a: Int,
+    // b: Int`). Format again in that case, so the output is a fixpoint
+    // of the formatter. This terminates: each round wraps at least
+    // one more single-line signature, and wrapped signatures are
+    // never joined again.
+    if result != src && wrap_long_signatures(&result, path) != result {
+        return format(&result, path);
+    }
+
     result
 }
 
@@ -1235,6 +1245,11 @@ pub(crate) fn verif_format_trace(src: &str, path: &Path) -> VerifFormatTrace {
     }
     if !result.is_empty() && !result.ends_with('\n') {
         result.push('\n');
+    }
+    if result != src && wrap_long_signatures(&result, path) != result {
+        // `format` starts over on its own output in this case; trace
+        // the round that produces the final text.
+        return verif_format_trace(&result, path);
     }
     texts.push(("final", result));
 
